@@ -91,8 +91,25 @@ private def getOp (name : String) (j : Json) : R Op := do
     | "set_plot_dimensions" => pure (.setPlotDims a)
     | _ => throw s!"unknown op {name}"
 
-/-- result of a wrapped body: the events it logged (or a protocol error) and whether it raised -/
-abbrev BodyRes := Except String (Array Json) × Bool
+/-- result of a wrapped body: the events it logged (or a protocol error) and how it ended -/
+abbrev BodyRes := Except String (Array Json) × Outcome
+
+/-- `"raise"`: absent / false = the body returns; true = it raises `Boom` (an `Exception`);
+    `{"cls": name, "exc": issubclass(cls, Exception)}` = it raises an instance of that class -/
+def getOutcome (s : Json) : R Outcome :=
+  match s.getObjVal? "raise" with
+  | .error _ => pure .returned
+  | .ok (.bool false) => pure .returned
+  | .ok .null => pure .returned
+  | .ok (.bool true) => pure (.raised "Boom" true)
+  | .ok o => do
+    let cls ← getStr (← field o "cls")
+    let exc ← (← field o "exc").getBool?
+    pure (.raised cls exc)
+
+def putOutcome : Outcome → Json
+  | .returned => "ok"
+  | .raised cls _ => Json.str ("raised:" ++ cls)
 
 partial def runStmts (stmts : List Json) (c : Cfg) : Cfg × Except String (Array Json) :=
   match stmts with
@@ -104,17 +121,16 @@ partial def runStmts (stmts : List Json) (c : Cfg) : Cfg × Except String (Array
         if name == "temp" then
           let k ← getArg (← field s "size")
           let body ← getArr (← field s "body")
-          let raises ← (fieldD s "raise" (Json.bool false)).getBool?
+          let ends ← getOutcome s
           let f : Cfg → Cfg × BodyRes := fun c1 =>
             let (c2, evs) := runStmts body.toList c1
-            (c2, (evs.map (fun a => #[obj [("t", "enter"), ("cfg", putCfg c1)]] ++ a), raises))
+            (c2, (evs.map (fun a => #[obj [("t", "enter"), ("cfg", putCfg c1)]] ++ a), ends))
           let (c', r) := withTempMc (ρ := BodyRes) (fun r => r.2) k f c
           match r with
           | none => pure (c', #[obj [("t", "exit"), ("r", "reject"), ("cfg", putCfg c')]])
           | some (.error e, _) => throw e
-          | some (.ok evs, raised) =>
-            pure (c', evs ++ #[obj [("t", "exit"), ("r", if raised then "raised" else "ok"),
-                                    ("cfg", putCfg c')]])
+          | some (.ok evs, ended) =>
+            pure (c', evs ++ #[obj [("t", "exit"), ("r", putOutcome ended), ("cfg", putCfg c')]])
         else
           let op ← getOp name s
           let (c', r) := step c op
